@@ -228,6 +228,16 @@ func (p *Path) startsBlock(i int) bool {
 	return p.segFrom == nil || p.segFrom[i] == 0
 }
 
+// InlinedCall reports whether the walker descended into this call on this path.
+func (p *Path) InlinedCall(call *ssa.Call) bool {
+	for _, f := range p.frames {
+		if f.call == call {
+			return true
+		}
+	}
+	return false
+}
+
 // Inlined reports whether ins lies in an inlined callee (not in the function the path was enumerated for).
 func (p *Path) Inlined(ins ssa.Instruction) bool {
 	return ins.Parent() != p.Fn
